@@ -43,7 +43,7 @@ struct PsoPrev {
     w: f64,
 }
 
-fn pso_extra(params: &Value) -> Extra<RealProblem> {
+fn pso_extra(params: &Value, n: u32) -> Extra<RealProblem> {
     let v_max = params["v_max"].as_f64().unwrap();
     let (c1, c2) = (params["c_one"].as_f64().unwrap(), params["c_two"].as_f64().unwrap());
     let (start, end) = (params["start_weight"].as_f64().unwrap(), params["end_weight"].as_f64().unwrap());
@@ -88,8 +88,13 @@ fn pso_extra(params: &Value) -> Extra<RealProblem> {
         // after the inertia-weight update: the configured linear interpolation at the loop's current progress
         let mut wexact = 2;
         if name == "Linear" {
-            if let (Some(w), Some(pr)) = (w, progress) {
+            // the loop's current progress is iterations / n (what LessThanN::iterations(n) stores when it is evaluated);
+            // it is recomputed here, independently of the stored Progress value
+            let iters = state.try_get_value::<Iterations>().ok();
+            if let (Some(w), Some(it)) = (w, iters) {
+                let pr = it as f64 / n as f64;
                 wexact = (w.to_bits() == ((end - start) * pr + start).to_bits()) as i64;
+                let _ = progress;
             }
         }
         let pbr: Vec<Value> = pb.as_ref().map(|b| b.iter().map(obj_of).collect()).unwrap_or_default();
@@ -237,9 +242,31 @@ fn aco_extra(name: &str, params: &Value) -> Extra<TspProblem> {
     })
 }
 
-pub fn real_extra(name: &str, params: &Value) -> (String, Extra<RealProblem>) {
+/// C17 (template level): the temperature in force after each component of the SA loop body, as the
+/// predicate "T = t_0 * alpha^k by k successive multiplications" for k = completed iterations
+/// (`t_iters`) and k = completed iterations + 1 (`t_next`).
+fn sa_extra<P: Instrumented>(params: &Value) -> Extra<P> {
+    let (t0, alpha) = (params["t_0"].as_f64().unwrap(), params["alpha"].as_f64().unwrap());
+    Box::new(move |_problem, state: &State<P>, _name| {
+        let t = state.try_get_value::<mahf::components::replacement::sa::Temperature>().ok();
+        let iters = state.try_get_value::<Iterations>().ok();
+        let (mut t_iters, mut t_next) = (-1i64, -1i64);
+        if let (Some(t), Some(it)) = (t, iters) {
+            let mut e = t0;
+            for _ in 0..it {
+                e *= alpha;
+            }
+            t_iters = (e.to_bits() == t.to_bits()) as i64;
+            t_next = ((e * alpha).to_bits() == t.to_bits()) as i64;
+        }
+        (Vec::new(), json!({"t_iters": t_iters, "t_next": t_next}))
+    })
+}
+
+pub fn real_extra(name: &str, params: &Value, n: u32) -> (String, Extra<RealProblem>) {
     match name {
-        "real_pso" => ("pso".to_string(), pso_extra(params)),
+        "real_sa" => ("sa".to_string(), sa_extra::<RealProblem>(params)),
+        "real_pso" | "real_pso|evals" => ("pso".to_string(), pso_extra(params, n)),
         "real_cro" => ("cro".to_string(), cro_extra(params)),
         _ => ("-".to_string(), Box::new(|_, _, _| (Vec::new(), json!({})))),
     }
@@ -248,6 +275,7 @@ pub fn real_extra(name: &str, params: &Value) -> (String, Extra<RealProblem>) {
 pub fn tsp_extra(name: &str, params: &Value) -> (String, Extra<TspProblem>) {
     match name {
         "ant_system" | "max_min_ant_system" => ("aco".to_string(), aco_extra(name, params)),
+        "permutation_sa" => ("sa".to_string(), sa_extra::<TspProblem>(params)),
         _ => ("-".to_string(), Box::new(|_, _, _| (Vec::new(), json!({})))),
     }
 }
